@@ -21,6 +21,7 @@ import XzVerif.Lemmas.C03Dict
 import XzVerif.Lemmas.C03Probs
 import XzVerif.Lemmas.C03Examples
 import XzVerif.Lemmas.C03Coder
+import XzVerif.Lemmas.C03Fuel
 
 namespace XzVerif.C03
 open XzVerif.RangeDec XzVerif.LzDict XzVerif.Lzma XzVerif.Lzma2
@@ -292,29 +293,48 @@ theorem match_len_range (s3 s8 : Nat) (h3 : 8 ≤ s3 ∧ s3 < 16) (h8 : 256 ≤ 
     ∧ LzDict.MATCH_LEN_MAX ≤ LZ_DICT_REPEAT_MAX :=
   ⟨(len_range s3 s8 h3 h8).1, (len_range s3 s8 h3 h8).2.1, (len_range s3 s8 h3 h8).2.2.1, (len_range s3 s8 h3 h8).2.2.2, by decide⟩
 
-/-! ## 6. totality
+/-! ## 6. totality and the coder law
 
   Every function of the model is a total Lean function: all recursion is structural (on bit counts, on explicit fuel, on
-  `init_bytes_left`), so Lean's acceptance of the definitions is the proof that no loop of the MODEL runs forever.
-  What ties this to "no unbounded loop in the decoder" is that the fuel is never exhausted; the fuel bounds are:
+  `init_bytes_left`), so Lean's acceptance of the definitions already shows that no loop of the MODEL runs forever.
+  What ties this to "no unbounded loop in the decoder" is that the fuel is never exhausted (an exhaustion would surface as
+  LZMA_PROG_ERROR); that is proved here for all three loops, with the fuels
     * `symLoop`       limit − pos + 2          (every symbol that does not end the call writes ≥ 1 byte)
     * `lzma2Loop`     2·(input left) + 4       (every iteration consumes a byte, except SEQ_LZMA → SEQ_CONTROL, followed by one that does)
     * `decodeBuffer`  input left + output left + 4   (every repetition consumes input (dictionary reset) or fills the dictionary)
-  A fuel exhaustion would make the model answer LZMA_PROG_ERROR, which the implementation never returns from these
-  functions: the correspondence run would flag it. -/
+  Helper lemmas: Lemmas/C03{Hoare,Frame,Call,Coder,Fuel}.lean (a small Hoare logic for the decoding monad). -/
 
-/-- The model never reports `LZMA_PROG_ERROR` for a chain whose options are valid (no fuel is ever exhausted).
-    Proved for the innermost and longest loop (`lzma_call_total_partial` below); for `lzma2Loop` and `decodeBuffer` the
-    bounds are stated above and checked by the correspondence only. -/
-def fuel_never_exhausted_statement : Prop :=
-  ∀ (last : LastFilter) (input : List UInt8) (outCap : Nat) (c : Coder),
-    last.init (ByteArray.mk input.toArray) = .ok c → (c.code outCap).1 ≠ Ret.progError
+/-- NO FUEL IS EVER EXHAUSTED: for every last filter that initialises, every input and every output allowance, the first
+    call of `code` — and, by induction (`Coder.Ok2` is preserved), every later call — never answers LZMA_PROG_ERROR.
+    Together with Lean's acceptance of the (structurally recursive) definitions this is the totality of the decoder in the
+    meaningful sense: every loop of the model stops by itself, for a reason the C code also has
+    (`symLoop`: every symbol writes a byte; `lzma2Loop`: every iteration consumes a byte or leaves SEQ_LZMA;
+    `decodeBuffer`: every repetition consumes input or fills the dictionary). -/
+theorem fuel_never_exhausted (last : LastFilter) (input : ByteArray) (c : Coder) (h : last.init input = .ok c) :
+    c.Ok2 ∧ ∀ (c' : Coder), c'.Ok2 → ∀ outCap, (c'.code outCap).1 ≠ Ret.progError ∧ (c'.code outCap).2.Ok2 := by
+  refine ⟨?_, fun c' h' outCap => Coder.code_no_prog_error c' outCap h'⟩
+  cases last with
+  | lzma1 props d p =>
+    simp only [LastFilter.init] at h
+    split at h
+    · cases h
+    · injection h with h; subst h; exact Coder.ok2_initLzma1 _ _ _ _ _ _
+  | lzma1ext props d p f e =>
+    simp only [LastFilter.init] at h
+    split at h
+    · cases h
+    · split at h
+      · cases h
+      · injection h with h; subst h; exact Coder.ok2_initLzma1 _ _ _ _ _ _
+  | lzma2 d p =>
+    simp only [LastFilter.init] at h
+    injection h with h; subst h; exact Coder.ok2_initLzma2 _ _ _
 
 /-- One call of `lzma_decode` (any state whose dictionary position is below its limit): the main loop's fuel
     `limit − pos + 2` is never exhausted and the loop is only left through an exit, so the call never answers
     LZMA_PROG_ERROR; the input cursor only moves forward and stays inside the input; output bytes and dictionary position
     advance together and stay within the caller's limit (which is restored afterwards). -/
-theorem lzma_call_total_partial (s : St) (h : s.dp.pos ≤ s.dp.limit) :
+theorem lzma_call_total (s : St) (h : s.dp.pos ≤ s.dp.limit) :
     (lzmaCall s).1 ≠ Ret.progError
     ∧ (lzmaCall s).2.inp = s.inp ∧ s.inPos ≤ (lzmaCall s).2.inPos ∧ (s.inPos ≤ s.inp.size → (lzmaCall s).2.inPos ≤ s.inp.size)
     ∧ (lzmaCall s).2.dp.limit = s.dp.limit ∧ (lzmaCall s).2.dp.pos ≤ s.dp.limit
